@@ -113,3 +113,12 @@ func init() {
 		libExtWrites[n] = func(f *Frame, c *ssa.CallCommon) ([]string, bool) { return []string{"next"}, false }
 	}
 }
+
+func init() {
+	pure := func(f *Frame, c *ssa.CallCommon, args []Val, pos token.Pos) ([]Val, bool) {
+		f.vc.trust("reflect.DeepEqual has no effect on the modelled heap (result unconstrained)")
+		return f.freshResults(c, "deepequal"), true
+	}
+	libExt["reflect.DeepEqual"] = pure
+	libExtWrites["reflect.DeepEqual"] = func(f *Frame, c *ssa.CallCommon) ([]string, bool) { return nil, false }
+}
